@@ -34,7 +34,7 @@ func newLimCtx(p *Prog) *limCtx {
 	cands := map[*types.Var][]ssa.Value{}
 	for _, fn := range p.Funcs {
 		for _, w := range FieldWrites(fn) {
-			if isIntegerLike(w.Field.Type()) && w.Field.Name() == "limit" && fieldOwner(w.Field, p) == "limitWriter" {
+			if isIntegerLike(w.Field.Type()) && N(w.Field) == "limit" && fieldOwner(w.Field, p) == "limitWriter" {
 				cands[w.Field] = append(cands[w.Field], w.Store.Val)
 			}
 		}
@@ -117,7 +117,7 @@ func (lc *limCtx) checkedOnAllPaths(v ssa.Value, b *ssa.BasicBlock) bool {
 	if fn == nil || len(fn.Blocks) == 0 || len(b.Instrs) == 0 || len(fn.Blocks) > 120 {
 		return false
 	}
-	key := "paths:" + FuncName(fn) + ":" + itoa(b.Index) + ":" + v.Name()
+	key := "paths:" + FuncName(fn) + ":" + itoa(b.Index) + ":" + N(v)
 	if r, ok := lc.summaries[key]; ok {
 		return r
 	}
@@ -434,7 +434,7 @@ func runC10(c *Ctx) {
 	// ---------------------------------------------------------------- C10.3
 	c.Rule("C10.3", "accumulating writers append only under a limit check or within a bounded counter", 4)
 	for _, fn := range p.Funcs {
-		if fn.Name() != "Write" || fn.Signature.Recv() == nil || fn.Signature.Params().Len() != 1 {
+		if N(fn) != "Write" || fn.Signature.Recv() == nil || fn.Signature.Params().Len() != 1 {
 			continue
 		}
 		if !p.inScope(fn) || len(fn.Params) < 2 {
@@ -545,7 +545,7 @@ func runC10(c *Ctx) {
 					}
 				}
 			}
-			c.Check(okChk, "C10.3", FuncName(fn), "buffer-behind-writer:"+w.Field.Name(), w.Store.Pos(),
+			c.Check(okChk, "C10.3", FuncName(fn), "buffer-behind-writer:"+N(w.Field), w.Store.Pos(),
 				"a raw buffer becomes the write sink only after the announced size was checked against the limit", "a raw pooled buffer is installed as write sink without a dominating limit check: what is written to it is unbounded")
 		}
 	}
@@ -628,7 +628,7 @@ func runC10(c *Ctx) {
 // counterBounded: every store to the counter field (outside Close methods) is a
 // constant, derives from the counter itself, or is checked against the limit.
 func counterBounded(p *Prog, lc *limCtx, fld *types.Var) bool {
-	key := "cb|" + fieldOwner(fld, p) + "." + fld.Name()
+	key := "cb|" + fieldOwner(fld, p) + "." + N(fld)
 	if v, ok := p.memo[key]; ok {
 		return v.(bool)
 	}
